@@ -205,3 +205,22 @@ Proof.
     cbn [finish snd] in *. apply app_inv_tail in Hs1. subst ys2.
     destruct stop as [k|]; cbn [cutd firstn']; [now rewrite Nat.sub_0_r|reflexivity].
 Qed.
+
+(* under the limit (strict reading) there is no such offset *)
+Lemma toolong_points_fits L needs :
+  forallb (fun x : N * N * N => (snd (fst x) <=? L)%N) needs = true -> toolong_points L needs = [].
+Proof.
+  induction needs as [|[[start need_lo] need_hi] rest IH]; [reflexivity|].
+  cbn [forallb toolong_points fst snd]. intros H. apply andb_true_iff in H as [H1 H2].
+  assert (Hlt : (L <? need_lo)%N = false) by lia. rewrite Hlt, (IH H2). cbn [app]. destruct (need_hi <=? L)%N; reflexivity.
+Qed.
+
+Theorem fits_no_toolong_points L s : fitsb L s = true -> toolong_points L (stream_needs s) = [].
+Proof. apply toolong_points_fits. Qed.
+
+(* sse.Read starts with an empty last event ID *)
+Corollary read_run_read_nil bc chunks e stop :
+  ending_ok e -> fitsb (bound_of EntryRead bc) (concat chunks) = true ->
+  fst (read_run EntryRead bc [] chunks e stop)
+  = (firstn' stop (vis false (interp gosse_read [] (concat chunks) e)), EndNormal).
+Proof. apply read_run_read. Qed.
